@@ -2,7 +2,7 @@
 import ast
 
 from .. import prov
-from ..report import AnalysisError, norm
+from ..report import borrow, AnalysisError, norm
 from ..srcmodel import own_nodes
 
 PROP = "C15"
@@ -57,6 +57,13 @@ def run(rep, ctx):
         borrow(rep, c07.r6_eq_hash, ctx, "C07.R6", "C15.R5", keep=lambda o: o.key == "ObtainQuantity:key-ordered")
     except AnalysisError as e:
         rep.error("C15.R5", str(e))
+    from . import c14
+    rep.rule("C15.R6", "arithmetic never edits an interned quantity's composing map (shared with C07.R3); a rejected registration leaves the registry as it was (C14.R2)")
+    try:
+        borrow(rep, c07.r3_ownership, ctx, "C07.R3", "C15.R6")
+        borrow(rep, c14.r2_check_before_write, ctx, "C14.R2", "C15.R6")
+    except AnalysisError as e:
+        rep.error("C15.R6", str(e))
     rep.run_rule("C15.R4", "the only state a query may write is a known memo table (whose coherence R3 establishes); no unlisted cache on the database or on interned quantities", r4_no_unlisted_memo, ctx)
     rep.not_decided.append("equality of query *answers* between warm and fresh databases beyond purity and memo coherence")
 
